@@ -11,7 +11,7 @@ THEOREMS = ['RunCmd.done_iff_all_zero', 'RunCmd.codes_are_prefix', 'RunCmd.not_r
             'RunCmd.bad_name_fails_task', 'RunCmd.status_total']
 BUDGET = {'quick': 600, 'thorough': 8000}
 TIME_LIMIT = {'quick': 50, 'thorough': 600}
-RULE = ('RunTask with 1-5 real command lines (/bin/sh -c printf to both streams, exit k in 0..255 or death by a signal; '
+RULE = ('RunTask with 0-5 real command lines (/bin/sh -c printf to both streams, exit k in 0..255 or death by a signal; '
         'sometimes programs found only through the PATH given to the task as subprocess argument), missing and '
         'non-executable programs at any position, task names with spaces, unicode, "/", NUL, ".", ".."; run through '
         'RunTask.do and (1 in 3) through the real Scheduler; 30% of the do() cases executed twice in the same output root '
@@ -72,7 +72,8 @@ def read_captured(path):
 
 def gen_task(rng):
     all_ok = rng.random() < 0.35
-    clis = [gen_cli(rng, not all_ok) for _ in range(rng.randrange(1, 6))]
+    # (a task without any command - nothing needs doing - is DONE)
+    clis = [gen_cli(rng, not all_ok) for _ in range(rng.randrange(1, 6) if rng.random() < 0.93 else 0)]
     if all_ok:
         for c in clis:
             c['code'] = 0
@@ -85,7 +86,20 @@ def gen_task(rng):
     return {'name': name, 'clis': clis}
 
 
+def gen_build(rng):
+    """a BuildTask (valjean/cosette/code.py) whose `cmake` is a scripted stand-in: the configure step exits with
+    `configure`, a build step exits with the number carried by the first `bad<k>` target it is asked for"""
+    targets = rng.sample(['ok1', 'ok2', 'ok3', 'bad3', 'bad1', 'bad7'], rng.randrange(0, 4))
+    if rng.random() < 0.5:
+        targets = [t for t in targets if t.startswith('ok')]
+    return {'build': {'name': rng.choice(['build', 'my build', 'b.1']), 'configure': 0 if rng.random() < 0.8 else rng.choice([1, 2]),
+                      'targets': targets if targets or rng.random() < 0.5 else None,
+                      'configure_flags': rng.choice([None, ['-DX=1']]), 'build_flags': rng.choice([None, ['--', '-j2']])}}
+
+
 def gen(rng, tier, run):
+    if rng.random() < 0.1:
+        return gen_build(rng)
     tasks = [gen_task(rng), gen_task(rng)]
     if tasks[0]['name'] == tasks[1]['name']:
         tasks[1]['name'] += '_2'
@@ -103,6 +117,11 @@ def gen(rng, tier, run):
 
 
 def shrink(case):
+    if 'build' in case:
+        tg = case['build']['targets'] or []
+        for i in range(len(tg)):
+            yield {'build': dict(case['build'], targets=tg[:i] + tg[i + 1:])}
+        return
     for ti, task in enumerate(case['tasks']):
         for i in range(len(task['clis'])):
             if len(task['clis']) > 1:
@@ -140,7 +159,75 @@ def sh_body(cli, scratch=''):
     return f"{body}; exit {cli['code']}"
 
 
+STUB_CMAKE = '''#!/bin/sh
+# stand-in for cmake: journals the call, writes to both streams, exits as scripted by its arguments
+printf '%s\\n' "$*" >> "$C19_JOURNAL"
+echo "cmake-out $*"
+echo "cmake-err $*" >&2
+code=0
+build=no
+for a in "$@"; do
+  case "$a" in
+    --build) build=yes ;;
+    bad*) if [ "$code" = 0 ]; then code="${a#bad}"; fi ;;
+  esac
+done
+if [ "$build" = no ]; then code="$C19_CONFIGURE"; fi
+printf '%s\\n' "exit $code" >> "$C19_JOURNAL"
+exit "$code"
+'''
+
+
+def run_build(case):
+    from valjean.config import Config
+    from valjean.cosette.code import BuildTask
+    spec = case['build']
+    scratch = tempfile.mkdtemp(prefix='c19b_')
+    saved = BuildTask.CMAKE
+    saved_env = {k: os.environ.get(k) for k in ('C19_JOURNAL', 'C19_CONFIGURE')}
+    obs = {}
+    try:
+        stub = os.path.join(scratch, 'cmake-stub')
+        with open(stub, 'w', encoding='utf-8') as fobj:
+            fobj.write(STUB_CMAKE)
+        os.chmod(stub, 0o755)
+        journal = os.path.join(scratch, 'journal')
+        os.environ['C19_JOURNAL'] = journal
+        os.environ['C19_CONFIGURE'] = str(spec['configure'])
+        BuildTask.CMAKE = stub
+        src = os.path.join(scratch, 'src')
+        os.makedirs(src)
+        config = Config({'path': {'output-root': os.path.join(scratch, 'out'), 'log-root': os.path.join(scratch, 'log')}})
+        task = BuildTask(spec['name'], src, targets=None if spec['targets'] is None else list(spec['targets']),
+                         configure_flags=spec['configure_flags'], build_flags=spec['build_flags'])
+        try:
+            env_up, status = task.do(env={}, config=config)
+            obs['status'] = status.name
+            with open(env_up[spec['name']]['build_log'], encoding='utf-8') as fobj:
+                obs['log'] = fobj.read()
+        except Exception as exc:  # pylint: disable=broad-except
+            obs['raised'] = f'{type(exc).__name__}: {exc}'[:200]
+        calls = []
+        if os.path.exists(journal):
+            with open(journal, encoding='utf-8') as fobj:
+                lines = fobj.read().split('\n')
+            for args, code in zip(lines[0::2], lines[1::2]):
+                calls.append([args.replace(scratch, '<scratch>'), int(code.split()[1])])
+        obs['calls'] = calls
+    finally:
+        BuildTask.CMAKE = saved
+        for key, val in saved_env.items():
+            if val is None:
+                os.environ.pop(key, None)
+            else:
+                os.environ[key] = val
+        shutil.rmtree(scratch, ignore_errors=True)
+    return {'build': obs}
+
+
 def run_impl(case, run):
+    if 'build' in case:
+        return run_build(case)
     from valjean.config import Config
     from valjean.cosette.run import RunTask
     from valjean.cosette.task import TaskStatus
@@ -223,6 +310,14 @@ def echo_line(cli, scratch='<scratch>'):
 
 
 def run_model(case, driver, run):
+    if 'build' in case:
+        # the build as a list of commands for the model of `run`: configure, then the build step (one command for all the
+        # targets); each exits as the stand-in is scripted to
+        spec = case['build']
+        bad = [int(t[3:]) for t in (spec['targets'] or []) if t.startswith('bad')]
+        clis = [{'echo': 'configure', 'res': [spec['configure'], '', '']},
+                {'echo': 'build', 'res': [bad[0] if bad else 0, '', '']}]
+        return {'build': driver.ask('runcmd', {'name': 'build', 'clis': clis})}
     outs = []
     for spec in case['tasks']:
         clis = []
@@ -246,12 +341,45 @@ def canon_impl(case, impl):
 
 def compare(case, impl, model):
     from vcheck.runner import first_diff
+    if 'build' in case:
+        obs, mod = impl['build'], model['build']
+        if 'raised' in obs:
+            return None     # oracle
+        got = {'status': obs['status'], 'codes': [c for _, c in obs['calls']]}
+        return first_diff(got, {'status': mod['status'], 'codes': mod['codes']})
     if any('run_raised' in o for o in impl['tasks']):
         return None   # reported by the oracle
     return first_diff(canon_impl(case, impl), model)
 
 
+def oracle_build(case, impl, run):
+    spec, obs = case['build'], impl['build']
+    run.count('via:BuildTask')
+    run.count(f"targets={len(spec['targets'] or [])}")
+    impl['_nontrivial'] = True
+    if 'raised' in obs:
+        return [('status_total', f"the build task raised {obs['raised']}")]
+    fails = []
+    codes = [c for _, c in obs['calls']]
+    if (obs['status'] == 'DONE') != all(c == 0 for c in codes) or not codes:
+        fails.append(('done_iff_all_zero', f"status {obs['status']} with the commands {obs['calls']}"))
+    first_bad = next((i for i, c in enumerate(codes) if c != 0), None)
+    if first_bad is not None and first_bad != len(codes) - 1:
+        fails.append(('not_run_after_failure', f'commands were run after the one that failed: {obs["calls"]}'))
+    if first_bad is None:
+        asked = ' '.join(a for a, _ in obs['calls'][1:])
+        missing = [t for t in (spec['targets'] or []) if t not in asked.split()]
+        if missing or len(obs['calls']) < 2:
+            fails.append(('done_iff_all_zero', f"DONE although the targets {missing} were never built: {obs['calls']}"))
+    log = obs.get('log', '')
+    if codes and log.count('cmake-out') != len(codes):
+        fails.append(('output_in_order', f"{len(codes)} commands run, {log.count('cmake-out')} outputs captured in the log"))
+    return fails
+
+
 def oracle(case, impl, run):
+    if 'build' in case:
+        return oracle_build(case, impl, run)
     fails = []
     nontriv = False
     dirs = []
